@@ -84,6 +84,19 @@ CLAIMED['C07'] = dict(
     note=TA + 'sequence length 2 (quick) / 3 (thorough); BaseStore.AddOperation = append + real UpdateIndex (contract); replication of the log itself is not modelled.',
     design='6/C07, appendix A')
 
+CLAIMED['C04'] = dict(
+    text='Symbolic execution of UpdateIndex and its handlers on histories written by the real store operations (each step a free choice inside an '
+         'operation family): a second index receives the same entry set under a FREE arrival order through the log contract (GetEntries = arrival order, '
+         'Values = deterministic log order); equal observations on both replicas, latest-event-per-subject against a reference fold, idempotent re-indexing. '
+         'Found the arrival-order defect (fixed, see known_findings.json).',
+    note=TA + 'go-ipfs-log/go-orbit-db replication, batching and reopen are NOT executed: they appear only as the two accessors of the log contract; '
+         'histories of 2..3 (4) events; causally unordered concurrent writes are outside the claim.', design='6/C04')
+CLAIMED['C13']['text'] = ('Bounded symbolic execution of getEntriesInRange / iterateOverEntries / checkParametersConsistency (every since/until choice, free ids, '
+    'free flags; lists of 0..4 / 0..7 entries) and of MetadataStore.ListEvents over the log contract: events that ARRIVED in a free order must be listed in '
+    'log order or exactly reversed. Found the reverse-arrival-order defect (fixed, see known_findings.json).')
+CLAIMED['C13']['note'] = ('Trusted: go/ssa lowering, wesym, contracts for cid/ipfs-log entries and the log accessors, z3. Outside: longer lists, MessageStore.ListEvents '
+    '(same two lines; needs the message pipeline), the RPC relay with until_now, OrbitDB replication itself.')
+
 NOT_APPLICABLE = {}
 ALL = ['C%02d' % i for i in range(1, 21)]
 PENDING_REASON = 'no solver-based check registered yet for this property in the current state of /verif (see DESIGN.md section 9)'
